@@ -35,3 +35,34 @@ Theorem C18_wrong_key_never_reaches_application : forall c s pgn sa data,
   forall cmd ad pt l oc k a acc sd, In (SProceedFn cmd ad pt l oc k a acc sd) os -> c_key c sd = k.
 Proof. exact wrong_key_never_reaches_application. Qed.
 Print Assumptions C18_wrong_key_never_reaches_application.
+
+(* ---------------------------------------------------------------- requesting side (theories/Dm14Cli.v) *)
+From J1939 Require Import Dm14Cli.
+From J1939P Require Import Dm14CliProofs.
+
+(* T18.2 (client): an 'operation failed' or 'busy' DM15 with EDCP 6 or 7 is queued as the exception naming the source
+   address, the 24-bit error code (little endian) and the EDCP, and wakes the waiting call ... *)
+Theorem C18_client_error_is_queued : forall haskey keyf s dest direct status e0 e1 e2 edcp,
+  q_dest s = Some dest -> 0 <= direct < 2 -> (status = 5 \/ status = 1) -> (edcp = 6 \/ edcp = 7) ->
+  cparse_dm15 haskey keyf s PGN_DM15 dest (dm15_error direct status e0 e1 e2 edcp) =
+  cok (cset_xq (cset_dq s (q_dq s ++ [None])) (q_xq s ++ [XDevice dest (e0 + 256 * (e1 + 256 * (e2 + 256 * 0))) edcp])).
+Proof. exact dm15_error_is_queued. Qed.
+Print Assumptions C18_client_error_is_queued.
+(* ... which raises exactly that exception and is idle again afterwards *)
+Theorem C18_client_read_raises_queued_exception : forall haskey keyf s dest direct addr objcnt size signed raw during s4 o4 item rest x xr,
+  0 < objcnt ->
+  (let s1 := csub (cupd s (q_state s) (Some dest) direct addr objcnt size signed raw 1 (q_bytes s) (q_mem s) (q_dq s) (q_xq s) (q_subs s)) CB15 in
+   cwait haskey keyf (cset_state s1 Q_WAIT_FOR_SEED) during = (s4, o4)) ->
+  q_dq s4 = item :: rest -> q_xq s4 = x :: xr ->
+  snd (cli_read haskey keyf s dest direct addr objcnt size signed raw during) = CRRaise x /\
+  q_state (fst (fst (cli_read haskey keyf s dest direct addr objcnt size signed raw during))) = Q_IDLE.
+Proof. exact read_raises_queued_exception. Qed.
+Print Assumptions C18_client_read_raises_queued_exception.
+(* a server that never answers: "no response", query idle, nothing left registered or queued *)
+Theorem C18_client_no_response : forall haskey keyf s dest direct addr objcnt size signed raw,
+  fresh s -> 0 < objcnt ->
+  exists s', cli_read haskey keyf s dest direct addr objcnt size signed raw [] =
+             (s', [CSend 217 (Z.land dest 255) 6 (dm14_frame objcnt direct 1 addr 7)], CRRaise XNoResponse) /\
+             q_state s' = Q_IDLE /\ q_subs s' = [] /\ q_dq s' = [] /\ q_xq s' = [].
+Proof. exact read_no_response. Qed.
+Print Assumptions C18_client_no_response.
